@@ -13,7 +13,7 @@ from collections import defaultdict, deque
 
 ITER_KINDS = {"iter", "keys", "values", "drain", "into_iter", "into_keys", "into_values"}
 READ_OPS = {"peek", "peek_entry", "peek_lru", "peek_mru", "contains", "len", "is_empty",
-            "current_size", "max_size", "capacity", "debug", "iter", "keys", "values", "clone", "clone_from"}
+            "current_size", "max_size", "capacity", "debug", "hasher", "iter", "keys", "values", "clone", "clone_from"}
 
 
 def parse_dump(path):
@@ -252,7 +252,7 @@ def crash_segments(g, rnd, out, max_edges):
     nkeys = 1 + max((len(c["ord"]) for st in g.states for c in st), default=0)
     cands = [i for i, e in enumerate(g.edges)
              if e["a"]["op"] not in ("new", "drop", "len", "is_empty", "current_size",
-                                     "max_size", "capacity", "peek_lru", "peek_mru")
+                                     "max_size", "capacity", "hasher", "peek_lru", "peek_mru")
              and e["a"]["op"] not in ITER_KINDS and e["_f"] in prev]
     rnd.shuffle(cands)
     if max_edges and len(cands) > max_edges:
